@@ -454,6 +454,20 @@ func (o *opCtx) exec(kind, k int) string {
 		}
 	case opBatch:
 		n := []int{0, 1, 2, 17, 40, 257}[rng.Intn(6)]
+		if k%3 == 1 && n > 0 {
+			// an earlier call with an un-normalisable element somewhere in the list
+			pl := make([]*banderwagon.Element, n)
+			ps := make([]banderwagon.Element, n)
+			for i := range pl {
+				ps[i] = ElemFromRef(o.base.P[rng.Intn(len(o.base.P))], nil, false)
+				pl[i] = &ps[i]
+			}
+			var bad banderwagon.Element
+			pl[rng.Intn(n)] = &bad
+			monTry(func() { banderwagon.ElementsToBytes(pl...) })
+			monTry(func() { banderwagon.BatchToBytesUncompressed(pl...) })
+			monTry(func() { banderwagon.BatchNormalize(pl) })
+		}
 		store := make([]banderwagon.Element, n)
 		list := make([]*banderwagon.Element, n)
 		for i := range store {
